@@ -16,6 +16,8 @@ inductive Piece where
   | kw (s : Str)
   /-- identifier with the quote it was rendered with -/
   | ident (q : Option Char) (name : Str)
+  /-- a GROUP BY / ORDER BY reference to a select-list alias, with the (alias) quote it was rendered with -/
+  | aliasRef (q : Option Char) (name : Str)
   /-- alias definition: blank or ` AS `, then the quoted alias -/
   | aliasDef (q : Option Char) (asKw : Bool) (name : Str)
   /-- string literal; `payload` is the *decoded* content, `flatten` doubles `q` inside it.
@@ -49,6 +51,7 @@ def escWith (q : Option Char) (s : Str) : Str :=
 def Piece.text : Piece → Str
   | .kw s => s
   | .ident q n => quoteWith q n
+  | .aliasRef q n => quoteWith q n
   | .aliasDef q a n => (if a then " AS ".toList else [' ']) ++ quoteWith q n
   | .str _ q p => quoteWith q (escWith q p)
   | .num _ t => t
